@@ -177,24 +177,25 @@ func init() {
 			outW:  func(c c11Case) expr.Width { return expr.Width(c.W * outMul) },
 			build: func(c c11Case, a, bb, _, _ expr.Expr) expr.Expr { return b(a, bb, W(c)) },
 			oracle: func(c c11Case, a, bb, _, _ *big.Int) (*big.Int, bool) {
-				if c.WA != c.W || c.WB != c.W {
+				if c.WA > c.W || c.WB > c.W {
 					return nil, false
 				}
-				return o(a, bb, W(c)), true
+				// each operand is a signed integer of ITS OWN width (the gadgets take the sign from the
+				// operand's top bit; the front end passes the one-byte zero for x0 next to 8-byte registers)
+				return o(sgn(a, expr.Width(c.WA)), sgn(bb, expr.Width(c.WB)), W(c)), true
 			}}
 	}
-	sbin("SignedMul", exprtools.SignedMul, 2, func(a, b *big.Int, w expr.Width) *big.Int {
-		return umod(new(big.Int).Mul(sgn(a, w), sgn(b, w)), 2*w)
+	sbin("SignedMul", exprtools.SignedMul, 2, func(sa, sb *big.Int, w expr.Width) *big.Int {
+		return umod(new(big.Int).Mul(sa, sb), 2*w)
 	})
-	sbin("SignedDiv", exprtools.SignedDiv, 1, func(a, b *big.Int, w expr.Width) *big.Int {
-		if b.Sign() == 0 {
+	sbin("SignedDiv", exprtools.SignedDiv, 1, func(sa, sb *big.Int, w expr.Width) *big.Int {
+		if sb.Sign() == 0 {
 			return new(big.Int).Sub(ir.Mod(w), big.NewInt(1))
 		}
-		return umod(new(big.Int).Quo(sgn(a, w), sgn(b, w)), w) // truncating; MIN/-1 = 2^(n-1) = MIN mod 2^n
+		return umod(new(big.Int).Quo(sa, sb), w) // truncating; MIN/-1 = 2^(n-1) = MIN mod 2^n
 	})
-	sbin("SignedMod", exprtools.SignedMod, 1, func(a, b *big.Int, w expr.Width) *big.Int {
+	sbin("SignedMod", exprtools.SignedMod, 1, func(sa, sb *big.Int, w expr.Width) *big.Int {
 		// the suite's convention: |a| mod |b| (|a| if b = 0), negated iff the signs differ
-		sa, sb := sgn(a, w), sgn(b, w)
 		aa, ab := new(big.Int).Abs(sa), new(big.Int).Abs(sb)
 		m := aa
 		if ab.Sign() != 0 {
@@ -304,9 +305,9 @@ func init() {
 	names := []string{"Negate", "Abs", "BitNot", "Ones", "IntNegative", "Bool", "Not", "BoolCond", "WidthGadget", "WidthGadget2", "BoolCondNarrow", "Sub", "Mod",
 		"BitAnd", "BitOr", "BitXor", "RshA", "SignedMul", "SignedDiv", "SignedMod", "SignExtend", "MaskBits", "Eq", "Leu", "Lts", "Les"}
 	checks["C11"] = eng.Check{
-		Rule: "every exported gadget constructor of pkg/expr/exprtools (plus two compositions: a width gadget of a width gadget, and a narrowed value selected by a wider BoolCond), evaluated (1) on constants through the real ConstFold and (2) on register loads through the independent evaluator, against big-integer definitions of the documented functions: ALL 65536 operand pairs at width 1 (all 8 sign bits, all 0..8 mask counts, all shift amounts), boundary alphabets at widths 2,3,4,8,16 (SignedMul also 32,64,127) and, with operands of the gadget's own width, at 33 and 255 (thorough 32,33,64,128,255), with operands of width w and — for the unsigned/bitwise gadgets — w-1 and w+1. Non-trivial = case inside the gadget's documented domain.",
+		Rule: "every exported gadget constructor of pkg/expr/exprtools (plus two compositions: a width gadget of a width gadget, and a narrowed value selected by a wider BoolCond), evaluated (1) on constants through the real ConstFold and (2) on register loads through the independent evaluator, against big-integer definitions of the documented functions: ALL 65536 operand pairs at width 1 (all 8 sign bits, all 0..8 mask counts, all shift amounts), boundary alphabets at widths 2,3,4,8,16 (SignedMul also 32,64,127) and, with operands of the gadget's own width, at 33 and 255 (thorough 32,33,64,128,255), with operands of width w and — for the unsigned/bitwise gadgets — w-1 and w+1, for the signed arithmetic gadgets also 1 and w-1 on either side. Non-trivial = case inside the gadget's documented domain.",
 		Assumptions: []string{
-			"signed gadgets (SignedMul/Div/Mod) are only judged with operands exactly w wide; SignExtend only with sign bit < 8w; MaskBits only with count <= 8w; BoolCond only with a condition not wider than w (documented preconditions)",
+			"signed gadgets (SignedMul/Div/Mod) are judged with operands at most w wide, each taken as a signed integer of its own width (what the gadgets implement and the front end relies on for x0); SignExtend only with sign bit < 8w; MaskBits only with count <= 8w; BoolCond only with a condition not wider than w (documented preconditions)",
 			"IntNegative is judged as zero / non-zero",
 			"above width 1 operand values are boundary alphabets, not all values",
 		},
@@ -396,6 +397,8 @@ func init() {
 					jobs = append(jobs, job{g, w, w, w})
 					switch g {
 					case "SignedMul", "SignedDiv", "SignedMod":
+						// operands narrower than w (each signed at its own width), on either side
+						jobs = append(jobs, job{g, w, 1, w}, job{g, w, w, 1}, job{g, w, w - 1, w}, job{g, w, w, w - 1}, job{g, w, 1, w - 1})
 					default:
 						jobs = append(jobs, job{g, w, w - 1, w}, job{g, w, w, w - 1}, job{g, w, w + 1, w + 1})
 					}
